@@ -129,7 +129,29 @@ def load_reviewed():
         return {e["key"]: e["reason"] for e in json.load(f)["sites"]}
 
 
+def rule_analysed_config(ctx, R="C02/analysed-config"):
+    """the ledger sees a wrap-around only as the overflow assert the compiler emits: the configuration analysed must have overflow checks
+    on (dev profile as shipped), and no cargo profile may switch them off or set debug-assertions off for dev/test — otherwise every
+    arithmetic sink is invisible and a wrapped address or size is used silently instead of being reported."""
+    import os
+    oc = ctx.prog.j.get("overflow_checks")
+    ctx.check(oc is True, R, "overflow-checks-on", None, "the analysed MIR was built with overflow checks (arithmetic sinks are visible)",
+              "the analysed configuration has overflow checks OFF (%r): arithmetic on target-controlled values wraps silently and the panic ledger cannot see it" % oc, nontrivial=False)
+    try:
+        import tomllib
+        with open(os.path.join(ctx.repo, "Cargo.toml"), "rb") as f:
+            ct = tomllib.load(f)
+        bad = []
+        for name, v in (ct.get("profile", {}) or {}).items():
+            if isinstance(v, dict) and name in ("dev", "test") and (v.get("overflow-checks") is False or v.get("debug-assertions") is False):
+                bad.append(name)
+        ctx.check(not bad, R, "profiles", "Cargo.toml", "no dev/test profile switches overflow checks or debug assertions off", "profile(s) %s switch overflow-checks/debug-assertions off" % bad, nontrivial=False)
+    except Exception as e:
+        ctx.unproven(R, "profiles", "Cargo.toml", "cannot read Cargo.toml: %s" % e)
+
+
 def run(ctx):
+    rule_analysed_config(ctx)
     taint = T.Taint(ctx.prog, ENTRIES)
     ctx.analysed["reachable_functions"] = len(taint.reach)
     ctx.analysed["tainted_params"] = len(taint.params)
